@@ -13,6 +13,12 @@ package main
 // connect, request end after the last byte, reload call before the call, return after it) and
 // handed to Coq, where the model must accept it (C07_Model.accepts) and the executable spec
 // must hold on it (C07_Model.spec_trace).
+//
+// Drain timeouts: the process log is read in every mode; a `[ERROR] Stopping <addr>: context
+// deadline exceeded` line written by Instance.Stop of the instance being replaced becomes an
+// EDrain event of the history (the model's LStopTimeout step).  Lineages with `hold` reloads keep
+// a half-sent request open on the old instance across the call (GracefulTimeout 3-20 ms): the
+// reload must succeed all the same, the held request is completed afterwards.
 
 import (
 	"bufio"
@@ -595,7 +601,29 @@ func (l *c07Lineage) observe(slots []int, full bool) {
 		}
 		a := l.slotAddr[sl]
 		l.add(ts, 1, cApp("EObs", cNat(a), cBool(open), cNat(l.slotGen[sl])), fmt.Sprintf("obs a=%d open=%v gen=%d", a, open, l.slotGen[sl]))
+		if full && open {
+			// no reload call is in progress (full observations are made by the main goroutine between
+			// the calls): how many descriptors of the process refer to this listening socket
+			n := c07FdCount(l.slotIno[sl])
+			l.add(l.now(), 1, cApp("EFds", cNat(a), cNat(n)), fmt.Sprintf("obs a=%d descriptors=%d", a, n))
+		}
 	}
+}
+
+// number of descriptors of this process that refer to the socket with the given inode
+func c07FdCount(ino uint64) int {
+	ents, err := os.ReadDir("/proc/self/fd")
+	if err != nil {
+		return 0
+	}
+	want := "socket:[" + strconv.FormatUint(ino, 10) + "]"
+	n := 0
+	for _, e := range ents {
+		if t, err := os.Readlink("/proc/self/fd/" + e.Name()); err == nil && t == want {
+			n++
+		}
+	}
+	return n
 }
 
 func c07Inter(a, b []int) []int {
@@ -1310,7 +1338,7 @@ func c07Gen(r *Rand, tier string) []interface{} {
 func init() {
 	register(&Property{
 		ID: "C07", Imports: "V.Lib V.C07_Model", Judge: "judge", Shard: 8,
-		Rule: "every case = one real lineage in-process on loopback: casket.Start + 2..20 Instance.Restart (valid / failing at parse, directive setup, startup callback, listen time; listen addresses 127.0.0.{1,2,3}:0 kept, dropped or added; 1-2 virtual hosts per address) under 2-8 concurrent fresh-connection clients (load) or with requests strictly between the reloads (sync); handler think time 0-20 ms, bodies 0-70 kB with Content-Length or chunked, GracefulTimeout 1 ms-5 s; the whole observed history is judged. non-trivial = at least one request overlaps a reload call (load) / at least one reload and one request (sync); distinct = distinct scenario (parameters + seed)",
+		Rule: "every case = one real lineage in-process on loopback: casket.Start + 2..20 Instance.Restart (valid / failing at parse, directive setup, startup callback, listen time; listen addresses 127.0.0.{1,2,3}:0 kept, dropped or added; 1-2 virtual hosts per address) under 2-8 concurrent fresh-connection clients (load) or with requests strictly between the reloads (sync); handler think time 0-20 ms, bodies 0-70 kB with Content-Length or chunked, GracefulTimeout 1 ms-5 s; drain-timeout lineages (GracefulTimeout 3-20 ms, a half-sent request held open on the instance being replaced across reload calls); drain timeouts logged by Instance.Stop are events of the history; the whole observed history is judged. non-trivial = at least one request overlaps a reload call (load) / at least one reload and one request (sync); distinct = distinct scenario (parameters + seed)",
 		Gen: c07Gen,
 		Decode: func(raw json.RawMessage) (interface{}, error) {
 			in := &c07In{}
